@@ -15,7 +15,7 @@ static const double E2 = 1e-6;   // finite-difference identities
 enum ElemType {
     E_Gravity, E_UniformGravity, E_TPSpring, E_TPDamper, E_TPConst, E_ConstForce, E_ConstTorque,
     E_GlobalDamper, E_MobSpring, E_MobDamper, E_MobConst, E_MobDiscrete, E_MobStop, E_Bushing, E_Discrete,
-    E_HuntCrossley, E_ElasticFoundation, E_Compliant, E_SmoothSphere, E_ExpSpring, E_CableSpring
+    E_HuntCrossley, E_ElasticFoundation, E_Compliant, E_SmoothSphere, E_ExpSpring, E_CableSpring, E_CableSpan
 };
 
 inline double spMax(const SpatialVec& v) { double m = 0; for (int i = 0; i < 2; ++i) for (int j = 0; j < 3; ++j) { double a = std::fabs(v[i][j]); if (!(a <= m)) m = a; } return m; }
